@@ -383,6 +383,49 @@ def _run_files(files) -> dict:
         return {"cls": "foreign:" + type(ex).__name__, "soft_origin": exception_origin(ex), "soft_msg": str(ex)[:300]}
 
 
+def dependency_path_probe(files):
+    """The same text, but first reached as a DEPENDENCY: it is stored as ns/Zq.1.0.dsdl and a valid ns/A.1.0.dsdl (which
+    sorts first and is therefore read first) refers to it.  If Zq fails on its own, reading the namespace must fail
+    with the path of Zq.  Deterministic subset of the cases (a function of the text), so that a case replays exactly."""
+    texts = [t for rel, t in files if rel == "ns/A.1.0.dsdl"]
+    if len(texts) != 1 or (len(texts[0]) + sum(map(ord, texts[0][:8]))) % 3 != 0:
+        return None
+    pydsdl = common.import_pydsdl()
+    import logging
+    logging.disable(logging.CRITICAL)
+    root = X.tmp_root() / "gd"
+    if root.exists():
+        shutil.rmtree(root)
+    root.mkdir()
+    try:
+        for rel, text in files:
+            if rel == "ns/A.1.0.dsdl":
+                rel = "ns/Zq.1.0.dsdl"
+            p = root / rel
+            p.parent.mkdir(parents=True, exist_ok=True)
+            p.write_bytes(text.encode("utf8", "replace"))
+        (root / "ns" / "A.1.0.dsdl").write_text("ns.Zq.1.0 z\n@sealed\n")
+    except (OSError, ValueError):
+        return None
+    zq = (root / "ns" / "Zq.1.0.dsdl").resolve()
+    try:
+        pydsdl.read_files([zq], [root / "ns"], [], print_output_handler=lambda p, l, t: None)
+        return None  # Zq is fine on its own: nothing to attribute
+    except pydsdl.InvalidDefinitionError as ex:
+        if ex.path is None or Path(ex.path).resolve() != zq:
+            return None  # the fault is not in Zq itself (e.g. it lies in something Zq refers to)
+    except Exception:
+        return None
+    try:
+        pydsdl.read_namespace(root / "ns", [], print_output_handler=lambda p, l, t: None)
+        return (False, "the namespace is accepted although Zq.1.0 fails on its own")
+    except pydsdl.InvalidDefinitionError as ex:
+        got = None if ex.path is None else Path(ex.path).resolve()
+        return (got == zq, "path %s" % (None if got is None else got.name))
+    except Exception as ex:  # judged by the main experiment
+        return None
+
+
 class GarbageSuite(common.Suite):
     name = "garbage"
 
@@ -410,7 +453,12 @@ class GarbageSuite(common.Suite):
 
     def run_impl(self, case):
         try:
-            return run_files(case["files"])
+            out = run_files(case["files"])
+            dep = dependency_path_probe(case["files"])
+            if dep is not None:
+                out["dep_path_ok"] = dep[0]
+                out["soft_dep"] = dep[1]
+            return out
         except Exception as ex:  # harness-side problem
             return {"cls": "harness:" + type(ex).__name__, "soft_msg": traceback.format_exc()[-400:]}
 
@@ -436,6 +484,8 @@ class GarbageSuite(common.Suite):
 
     def oracle(self, case, impl, prop):
         cls = impl.get("cls", "")
+        if impl.get("dep_path_ok") is False:
+            return "InvalidDefinitionError of a definition first reached as a dependency does not name that file (%s)" % impl.get("soft_dep")
         if cls in ("ok", "unwritable"):
             return None
         if cls == "invalid":
@@ -453,6 +503,8 @@ class GarbageSuite(common.Suite):
             return "%s/internal/%s" % (prop, origin)
         if desc.startswith("foreign:"):
             return "%s/foreign/%s" % (prop, origin or desc.split(" ")[0][8:])
+        if desc.startswith("InvalidDefinitionError of a definition first reached"):
+            return "%s/dependency-error-wrong-path" % prop
         if desc.startswith("InvalidDefinitionError"):
             return "%s/invalid-without-path" % prop
         if desc.startswith("hazard") or desc.startswith("model"):
